@@ -56,6 +56,7 @@ func main() {
 	}
 	libPart(r)
 	keygenPart(r)
+	keygenLongPart(r)
 	cliPart(r)
 	r.Finish()
 }
